@@ -439,34 +439,34 @@ Section Sim.
         split; [eapply store_le_trans; eauto|split; [eapply grows_trans; eauto|split; [exact Hok2|exact Hr2]]].
   Qed.
 
-  Lemma name_if_lambda_closed : forall st v x, closed_value st v -> closed_value (name_if_lambda st v x) v.
-  Proof. intros st v x Hv. eapply closed_mono; [apply name_if_lambda_le|exact Hv]. Qed.
+  Lemma name_if_lambda_closed : forall n0 st v x, closed_value st v -> closed_value (name_if_created n0 st v x) v.
+  Proof. intros n0 st v x Hv. eapply closed_mono; [apply name_if_created_le|exact Hv]. Qed.
 
-  Lemma bind_value_sim : forall st H oi x v,
+  Lemma bind_value_sim : forall n0 st H oi x v,
     st_ok st H oi -> closed_value st v ->
     exists r st1 H1,
-      (forall T, bind_value (st, H ++ T) x v = (r, (st1, H1 ++ T))) /\
+      (forall T, bind_value n0 (st, H ++ T) x v = (r, (st1, H1 ++ T))) /\
       store_le st st1 /\ grows H H1 /\ st_ok st1 H1 oi /\ closed_res st1 r /\
       (is_ok r = true -> lookup H1 x <> None).
   Proof.
-    intros st H oi x v Hok Hv. pose proof (ok_ne _ _ _ Hok) as Hne.
-    pose proof (name_if_lambda_le st v x) as Hle.
+    intros n0 st H oi x v Hok Hv. pose proof (ok_ne _ _ _ Hok) as Hne.
+    pose proof (name_if_created_le n0 st v x) as Hle.
     destruct (insert_head H x v) as [H'|] eqn:Ei.
     - destruct (insert_head_grows _ _ _ _ Ei) as [Hg Hl].
-      exists (Ok v), (name_if_lambda st v x), H'.
+      exists (Ok v), (name_if_created n0 st v x), H'.
       split; [intros T; unfold bind_value; cbn [fst snd]; rewrite insert_head_app by exact Hne; rewrite Ei; reflexivity|].
       split; [exact Hle|split; [exact Hg|]].
-      assert (Hcf : closed_frames (name_if_lambda st v x) H').
+      assert (Hcf : closed_frames (name_if_created n0 st v x) H').
       { pose proof (ok_closed _ _ _ Hok) as Hc. clear Hg Hl Hok.
         destruct H as [|[k0 f0] r0]; [congruence|]. cbn [insert_head] in Ei. destruct k0; [|discriminate].
         inversion Ei; subst.
-        apply closed_frames_mono with (st' := name_if_lambda st v x) in Hc; [|exact Hle].
+        apply closed_frames_mono with (st' := name_if_created n0 st v x) in Hc; [|exact Hle].
         inversion Hc; subst. constructor; [|assumption]. cbn [snd] in *. constructor; [|assumption].
         cbn [snd]. apply name_if_lambda_closed. exact Hv. }
       split; [split; [eapply grows_ne; eauto|exact Hcf|]|].
       + intros w Hw. eapply closed_mono; [exact Hle|]. apply (ok_inputs _ _ _ Hok). exact Hw.
       + split; [intros w Hw; inversion Hw; subst; apply name_if_lambda_closed; exact Hv|intros _; exact Hl].
-    - exists Panic, (name_if_lambda st v x), H.
+    - exists Panic, (name_if_created n0 st v x), H.
       split; [intros T; unfold bind_value; cbn [fst snd]; rewrite insert_head_app by exact Hne; rewrite Ei; reflexivity|].
       split; [exact Hle|split; [apply grows_refl; exact Hne|split; [eapply st_ok_mono; eauto|]]].
       split; [intros ? Hq; discriminate Hq|intros Hq; discriminate Hq].
@@ -508,7 +508,7 @@ Section Sim.
              [intros T HT; unfold assign_value; rewrite (E1 T HT); reflexivity|];
              split; [exact Hle1|split; [exact Hg1|split; [exact Hok1|split;
                [intros ? Hq; discriminate Hq|intros ? ? _ Hq; discriminate Hq]]]]).
-      destruct (bind_value_sim st1 H1 oi x w Hok1 (Hr1 w eq_refl)) as (r2 & st2 & H2 & E2 & Hle2 & Hg2 & Hok2 & Hr2 & Hl2).
+      destruct (bind_value_sim (Datatypes.length st) st1 H1 oi x w Hok1 (Hr1 w eq_refl)) as (r2 & st2 & H2 & E2 & Hle2 & Hg2 & Hok2 & Hr2 & Hl2).
       exists r2, st2, H2. split; [intros T HT; unfold assign_value; rewrite (E1 T HT); apply E2|].
       split; [eapply store_le_trans; eauto|split; [eapply grows_trans; eauto|split; [exact Hok2|split; [exact Hr2|]]]].
       intros x0 v0 Heq Hq. inversion Heq; subst. apply Hl2. exact Hq.
